@@ -38,16 +38,16 @@ already succeeded), or that carries the admission-error annotation, every task o
 is unfinished and has no deletion timestamp gets a graceful pod delete — whatever the faults —
 and on success its refs are marked `deletedStatus = Killed`; with no fault pending the step
 succeeds. -/
-theorem decided_then_kill (s : Sys) (rj : Job) (tasks : List Task)
+theorem decided_then_kill (s : Sys) (jo : JobObj) (rj : Job) (tasks : List Task)
     (h : shouldKillJobForParallel rj = true ∨ rj.admissionError = true) :
     (∀ t ∈ tasks, isTaskFinished t = false → t.deletionTimestamp = none →
-      ∃ c ∈ newCalls s (handleKillJob s rj tasks).1,
+      ∃ c ∈ newCalls s (handleKillJob s jo rj tasks).1,
         c.verb = "delete" ∧ c.res = "pods" ∧ c.force = false ∧ c.name = t.name) ∧
-    (∀ rj', (handleKillJob s rj tasks).2 = some rj' →
+    (∀ rj', (handleKillJob s jo rj tasks).2 = some rj' →
       ∀ t ∈ tasks, isTaskFinished t = false → t.deletionTimestamp = none →
         ∀ r ∈ rj'.status.tasks, r.name = t.name → r.deletedStatus = some killedStatus) ∧
-    (NoFault s → ∃ rj', (handleKillJob s rj tasks).2 = some rj') := by
-  obtain ⟨l, e, _, hall, hon⟩ := handleKillJob_ext s rj tasks
+    (NoFault s → ∃ rj', (handleKillJob s jo rj tasks).2 = some rj') := by
+  obtain ⟨l, e, _, hall, hon⟩ := handleKillJob_ext s jo rj tasks
   obtain ⟨hcov, hmark, hnf⟩ := hon ((shouldKillJob_iff s.clock rj).mpr (Or.inr h))
   rw [e.newCalls]
   refine ⟨?_, ?_, fun hno => ⟨_, (hnf hno).1⟩⟩
@@ -64,7 +64,7 @@ example :
     let pb := mkPod "job-b-0" "b" .running none
     let j : Job := { anyJob with admissionError := true }
     let s : Sys := { clock := sec 60, d := { hash := "d" }, pods := [pb], podCache := [pb] }
-    (newCalls s (handleKillJob s j ((podTask pb).toList)).1).map brief = [("delete", "pods", "job-b-0", "ok", false)] := by
+    (newCalls s (handleKillJob s ⟨"job", "u", j, true, 1⟩ j ((podTask pb).toList)).1).map brief = [("delete", "pods", "job-b-0", "ok", false)] := by
   decide
 
 /-- what "decided against continuing" means, exactly -/
@@ -107,7 +107,7 @@ theorem decided_then_kill_pass (s : Sys) (jo : JobObj) (rj rjOut : Job)
       rw [shouldKillJobForParallel_congr (hs3.template.trans hs2.template.symm) hps]
       exact h
     · right; rw [hs3.admissionError]; exact h
-  obtain ⟨c, hcm, hrest⟩ := (decided_then_kill s3 rj3 tasks1 h3).1 t ht hf hd
+  obtain ⟨c, hcm, hrest⟩ := (decided_then_kill s3 jo rj3 tasks1 h3).1 t ht hf hd
   rw [hkj] at hcm
   refine ⟨c, ?_, hrest⟩
   rw [hcalls]
